@@ -23,13 +23,19 @@ Remove(a) == /\ a \in ubp /\ i # Exited /\ nbk < MaxBk /\ nbk' = nbk + 1
 Start     == /\ i = 0 /\ i' = RefContinue(0, ubp) /\ Log([cmd |-> "start"]) /\ UNCHANGED <<ubp, nbk>>
 Continue  == /\ i \in 1..N /\ i' = RefContinue(i, ubp) /\ Log([cmd |-> "continue"]) /\ UNCHANGED <<ubp, nbk>>
 StepCmd(c) == /\ i \in 1..N
+              /\ MaxOf(Adm(c, i) \cup {i}) < TailPos      \* stay inside the recorded execution
               /\ (c = "stepi") => ~X[i].ext
               /\ \E j \in Adm(c, i) \cup {RefContinue(i, ubp)} :
                     /\ j <= MaxOf(Adm(c, i))
                     /\ i' = j
               /\ Log([cmd |-> c]) /\ UNCHANGED <<ubp, nbk>>
+\* C11: restart re-creates the process with the user's breakpoints intact: they hit again at the same places
+Restart   == /\ Lifecycle /\ i # 0 /\ i' = RefContinue(0, ubp) /\ Log([cmd |-> "restart"]) /\ UNCHANGED <<ubp, nbk>>
+\* C11: quitting (dropping the debugger) ends the session in any state; nothing may be left behind
+Drop      == /\ Lifecycle /\ ncmd > 0 /\ i' = Exited /\ ncmd' = MaxCmd /\ hist' = Append(hist, [cmd |-> "drop", at |-> i])
+             /\ UNCHANGED <<ubp, nbk>>
 Cmd == \/ \E a \in BpCands : Break(a) \/ Remove(a)
-       \/ Start \/ Continue
+       \/ Start \/ Continue \/ Restart \/ Drop
        \/ \E c \in {"stepi", "step", "next", "finish"} : StepCmd(c)
 Next == ncmd < MaxCmd /\ Cmd
 Spec == Init /\ [][Next]_vars
